@@ -694,7 +694,7 @@ RT_HEADER = r"""
 /* ---- cxx2c runtime: exception model (DESIGN.md 3.4) ---- */
 #include <stddef.h>
 #include <string.h>
-struct vf_exc_t { _Bool pending; int type; unsigned long obj; unsigned long handled;
+struct vf_exc_t { int pending; int type; unsigned long obj; unsigned long handled;
                   const void* in; size_t byte, line, column; };
 struct vf_exc_t vf_exc;
 unsigned long vf_exc_counter;
